@@ -495,7 +495,8 @@ def lnotAction (a : Int) : PyRes Int := BdGrammar.lnotRule a
 /-! Operands that are Python `str`s (an undefined identifier evaluates to its own name, a string option to its text):
     hand model of Python's operators on them.  `+` concatenates two strs, `*` repeats a str, `&&`/`||`/`!` use truthiness
     (non-empty), `==`/`!=` compare any two values, `<`… compare two strs by code points; everything else raises TypeError.
-    Not modelled: `%` with a str on the left that contains `%` (string formatting), repetition counts above 2^16. -/
+    Not modelled: `%` with a str on the left that contains `%` (string formatting), repetition counts above 2^16 or results
+    longer than 2^20 characters. -/
 
 def asInt : Val → PyRes Int
   | .int i => .ok i
@@ -511,10 +512,10 @@ def binVal (o : BinOp) : Val → Val → PyRes Val
   | .int x, .int y => match opAction o x y with | .ok z => .ok (.int z) | .error e => .error e
   | .sym a, .sym b => match o with | .add => .ok (.sym (a ++ b)) | _ => .error .other
   | .sym a, .int n => match o with
-    | .mul => if n > 65536 then .error .other else .ok (.sym (strRepeat a n))
+    | .mul => if n > 65536 || (a.length : Int) * n > 1048576 then .error .other else .ok (.sym (strRepeat a n))
     | _ => .error .other
   | .int n, .sym a => match o with
-    | .mul => if n > 65536 then .error .other else .ok (.sym (strRepeat a n))
+    | .mul => if n > 65536 || (a.length : Int) * n > 1048576 then .error .other else .ok (.sym (strRepeat a n))
     | _ => .error .other
 
 def cmpVal (o : CmpOp) : Val → Val → PyRes Val
